@@ -26,9 +26,12 @@ def intersect_lines(p0, q0, p1, q1):
     k = np.cross(f, e)
     h_ = vg.magnitude(h)
     k_ = vg.magnitude(k)
-    if h_ == 0 or k_ == 0:
+    if k_ == 0:
         # There is no intesection; either parallel (k=0) or collinear (both=0) lines.
         return None
+    if h_ == 0:
+        # The lines are not parallel, and p0 lies on line 1 as well.
+        return p0
 
     # Check for the special case of lines in parallel planes.
     # https://math.stackexchange.com/a/697278/640314
